@@ -39,7 +39,7 @@ RULE = (
     "give back the SI values. sim (about 1 % of the cases): SinglePhaseFlow on a Cartesian unit-square md-grid with "
     "0..2 fractures, run unscaled and with (m, kg) scaled by powers of ten / small integers, with a fixed number of "
     "Newton iterations per step; pressure (1e-7 of the largest deviation from the reference pressure) and interface Darcy flux (1e-6 of its maximum) converted to SI agree; pairs in which the sparse solver left a relative residual > 1e-9 are discarded and counted. "
-    "Non-trivial = >= 2 tokens / >= 2 converted fields / any sim; distinct = hash of spec."
+    "Non-trivial = >= 2 tokens / >= 2 converted fields / any sim; distinct = hash of spec. Two fifths of the unit systems scale exactly one base unit (m, kg, K, mol or rad) with all others exactly 1, mostly with every material constant given a non-zero value."
 )
 BUDGET = {"quick": {"cases": 4000, "seconds": 45}, "thorough": {"cases": 200000, "seconds": 1100}}
 TECHNIQUE = "property-based testing (Hypothesis): exact-rational reference for conversions, round trip, metamorphic unit scaling of a flow simulation"
